@@ -1,8 +1,193 @@
-import NoteSeqVerif.Model.C14Spec
+import NoteSeqVerif.Proofs.C14Main
+/-! C14 — applying the sustain pedal holds exactly the notes the pedal holds (DESIGN 6.14).
+Property theorems about the model `applySustain` (`Model/C14.lean`, a literal transcription of
+`sequences_lib.apply_sustain_control_changes`, tied to the source by the generated event-order
+constants and by the differential correspondence check) and the declarative specification
+`pedalDown` / `heldEnd` (`Model/C14Spec.lean`).  All theorems hold for every controller number
+`ctl`; the Python default is `Gen.DEFAULT_SUSTAIN_CONTROL_NUMBER`. -/
 namespace NSV.C14
+open Gen
 
+/-- **The pedal holds exactly the notes the pedal holds.**  For every unquantized sequence whose
+pitched notes are well-formed and never overlap on one pitch of one instrument, the result is the
+input with every note's end replaced by `heldEnd` — same notes, same order, every other field of
+every note and every other container untouched — and `total_time` is only ever raised, and only
+to the held end of a pedal-held note. -/
+theorem sustain_spec (ctl : Int) (s : NoteSeq) (hq : s.isQuantized = false) (hw : WellFormed s)
+    (ho : NoSamePitchOverlap s) :
+    ∃ T, applySustain ctl s = .ok { s with notes := specNotes ctl s, totalTime := T } ∧
+      s.totalTime ≤ T ∧
+      (T = s.totalTime ∨ ∃ nt ∈ s.notes, nt.isDrum = false ∧
+        pedalDown ctl s.ccs nt.instrument nt.end_ ∧ T = heldEnd ctl s nt) ∧
+      (∀ nt ∈ s.notes, heldEnd ctl s nt ≤ T ∨ heldEnd ctl s nt = nt.end_ ∨
+        ∃ m ∈ s.notes, m.isDrum = false ∧ m.start = heldEnd ctl s nt) := by
+  obtain ⟨T, h1, h2, h3, h4⟩ := core_spec ctl s hw ho
+  refine ⟨T, ?_, h2, h3, h4⟩
+  have h1' : applyCore ctl (fun (i : Fin s.notes.length) => s.notes[i]) s.ccs s.totalTime =
+      .ok (specNotes ctl s, T) := h1
+  simp only [applySustain, hq, Bool.false_eq_true, if_false, h1']
+
+/-- quantized input is rejected (before anything else is looked at) -/
 theorem sustain_rejects_quantized (ctl : Int) (s : NoteSeq) (h : s.isQuantized = true) :
     applySustain ctl s = .error .quantizationStatusError := by
   simp [applySustain, h]
+
+/-- whatever the input (no precondition): a result differs from the input at most in `notes` and
+`total_time`; tempos, signatures, control changes, … are copied -/
+theorem sustain_frame (ctl : Int) (s r : NoteSeq) (h : applySustain ctl s = .ok r) :
+    r = { s with notes := r.notes, totalTime := r.totalTime } := by
+  unfold applySustain at h
+  split at h
+  · cases h
+  · split at h
+    · cases h
+    · cases h; rfl
+
+/-- under the preconditions there is a result, it has as many notes as the input, and note `i`
+of the result is note `i` of the input with its end moved to `heldEnd` -/
+theorem sustain_pointwise (ctl : Int) (s : NoteSeq) (hq : s.isQuantized = false) (hw : WellFormed s)
+    (ho : NoSamePitchOverlap s) :
+    ∃ r, applySustain ctl s = .ok r ∧ r.notes.length = s.notes.length ∧
+      ∀ (i : Nat) (hi : i < s.notes.length) (hi' : i < r.notes.length),
+        r.notes[i] = setEnd s.notes[i] (heldEnd ctl s s.notes[i]) := by
+  obtain ⟨T, h1, _⟩ := sustain_spec ctl s hq hw ho
+  refine ⟨_, h1, by simp [specNotes], ?_⟩
+  intro i hi hi'
+  simp [specNotes]
+
+/-- a held note is never shortened, and nothing but its end changes -/
+theorem sustain_never_shortens (ctl : Int) (s : NoteSeq) (hq : s.isQuantized = false)
+    (hw : WellFormed s) (ho : NoSamePitchOverlap s) :
+    ∃ r, applySustain ctl s = .ok r ∧ r.notes.length = s.notes.length ∧
+      ∀ (i : Nat) (hi : i < s.notes.length) (hi' : i < r.notes.length),
+        s.notes[i].end_ ≤ r.notes[i].end_ ∧ setEnd r.notes[i] s.notes[i].end_ = s.notes[i] := by
+  obtain ⟨r, h1, h2, h3⟩ := sustain_pointwise ctl s hq hw ho
+  refine ⟨r, h1, h2, ?_⟩
+  intro i hi hi'
+  rw [h3 i hi hi']
+  exact ⟨heldEnd_ge ctl s hw ho _ (List.getElem_mem hi), rfl⟩
+
+/-- drum notes come out exactly as they went in -/
+theorem sustain_drums_untouched (ctl : Int) (s : NoteSeq) (hq : s.isQuantized = false)
+    (hw : WellFormed s) (ho : NoSamePitchOverlap s) :
+    ∃ r, applySustain ctl s = .ok r ∧ r.notes.length = s.notes.length ∧
+      ∀ (i : Nat) (hi : i < s.notes.length) (hi' : i < r.notes.length),
+        s.notes[i].isDrum = true → r.notes[i] = s.notes[i] := by
+  obtain ⟨r, h1, h2, h3⟩ := sustain_pointwise ctl s hq hw ho
+  refine ⟨r, h1, h2, ?_⟩
+  intro i hi hi' hd
+  rw [h3 i hi hi', heldEnd_drum ctl s _ hd]; rfl
+
+/-- notes of an instrument whose own pedal is never pressed come out exactly as they went in,
+whatever the pedals of the other instruments do -/
+theorem sustain_other_instruments_untouched (ctl : Int) (s : NoteSeq) (hq : s.isQuantized = false)
+    (hw : WellFormed s) (ho : NoSamePitchOverlap s) :
+    ∃ r, applySustain ctl s = .ok r ∧ r.notes.length = s.notes.length ∧
+      ∀ (i : Nat) (hi : i < s.notes.length) (hi' : i < r.notes.length),
+        (∀ c ∈ s.ccs, c.number = ctl → c.instrument = s.notes[i].instrument → c.value < 64) →
+        r.notes[i] = s.notes[i] := by
+  obtain ⟨r, h1, h2, h3⟩ := sustain_pointwise ctl s hq hw ho
+  refine ⟨r, h1, h2, ?_⟩
+  intro i hi hi' h
+  have : ¬ pedalDown ctl s.ccs s.notes[i].instrument s.notes[i].end_ := by
+    rintro ⟨c, hc, hn, hci, hv, _⟩
+    have := h c hc hn hci
+    omega
+  rw [h3 i hi hi', heldEnd_noPedal ctl s _ this]; rfl
+
+/-- without pedal-down events the result equals the input, `total_time` included -/
+theorem sustain_no_pedal_identity (ctl : Int) (s : NoteSeq) (hq : s.isQuantized = false)
+    (hw : WellFormed s) (ho : NoSamePitchOverlap s)
+    (h : ∀ c ∈ s.ccs, c.number = ctl → c.value < 64) : applySustain ctl s = .ok s := by
+  obtain ⟨T, h1, _, h3, _⟩ := sustain_spec ctl s hq hw ho
+  have hnp : ∀ nt : Note, ¬ pedalDown ctl s.ccs nt.instrument nt.end_ := by
+    rintro nt ⟨c, hc, hn, _, hv, _⟩
+    have := h c hc hn
+    omega
+  have hT : T = s.totalTime := by
+    rcases h3 with h3 | ⟨nt, _, _, hpd, _⟩
+    · exact h3
+    · exact absurd hpd (hnp nt)
+  have hnotes : specNotes ctl s = s.notes := by
+    unfold specNotes
+    conv => rhs; rw [← List.map_id s.notes]
+    apply List.map_congr_left
+    intro nt _
+    rw [heldEnd_noPedal ctl s nt (hnp nt)]; rfl
+  rw [h1, hT, hnotes]
+
+/-- if `total_time` covered every note end before, it covers every note end after -/
+theorem sustain_total_covers (ctl : Int) (s : NoteSeq) (hq : s.isQuantized = false)
+    (hw : WellFormed s) (ho : NoSamePitchOverlap s)
+    (hcov : ∀ nt ∈ s.notes, nt.end_ ≤ s.totalTime) :
+    ∃ r, applySustain ctl s = .ok r ∧ ∀ nt ∈ r.notes, nt.end_ ≤ r.totalTime := by
+  obtain ⟨T, h1, h2, _, h4⟩ := sustain_spec ctl s hq hw ho
+  refine ⟨_, h1, ?_⟩
+  intro nt' hnt'
+  simp only [specNotes, List.mem_map] at hnt'
+  obtain ⟨nt, hnt, rfl⟩ := hnt'
+  show heldEnd ctl s nt ≤ T
+  rcases h4 nt hnt with h | h | ⟨m, hm, hmd, hms⟩
+  · exact h
+  · rw [h]; exact Rat.le_trans (hcov nt hnt) h2
+  · rw [← hms]
+    exact Rat.le_trans (hw m hm hmd) (Rat.le_trans (hcov m hm) h2)
+
+/-! ## Non-vacuity: concrete inputs that satisfy the hypotheses, with non-trivial results -/
+
+def exNote (pitch : Int) (a b : Rat) (inst : Int := 0) (drum : Bool := false) : Note :=
+  { pitch := pitch, velocity := 80, start := a, end_ := b, qs := 0, qe := 0, instrument := inst,
+    program := 0, isDrum := drum, numerator := 0, denominator := 0, voice := 0, part := 0,
+    pitchName := 0 }
+def exCC (t : Rat) (v : Int) (inst : Int := 0) (num : Int := 64) : CC :=
+  { time := t, qstep := 0, number := num, value := v, instrument := inst, program := 0,
+    isDrum := false }
+
+/-- pedal of instrument 0 down from 1/2 to 5/2; pitch 60 is struck again at 2; a drum note; a note
+on instrument 1 whose pedal is only ever released; another controller -/
+def ex1 : NoteSeq :=
+  { notes := [exNote 60 0 1, exNote 60 2 3, exNote 62 0 1, exNote 36 0 5 0 true, exNote 60 0 1 1],
+    ccs := [exCC (1/2) 127, exCC (5/2) 0, exCC 0 127 0 66, exCC 1 63 1],
+    totalTime := 5 }
+
+/-- hypotheses of `sustain_spec`, `sustain_pointwise`, `sustain_never_shortens`,
+`sustain_drums_untouched`, `sustain_other_instruments_untouched`, `sustain_total_covers` -/
+example : ex1.isQuantized = false ∧ WellFormed ex1 ∧ NoSamePitchOverlap ex1 ∧
+    (∀ nt ∈ ex1.notes, nt.end_ ≤ ex1.totalTime) := by decide
+/-- … and the specification is not the identity there: held until the re-strike (2), not held
+(pedal already up at 3), held until the release (5/2), drum untouched, other instrument untouched -/
+example : ex1.notes.map (heldEnd 64 ex1) = [2, 3, 5/2, 5, 1] := by decide +kernel
+example : pedalDown 64 ex1.ccs 0 1 ∧ ¬ pedalDown 64 ex1.ccs 0 3 ∧ ¬ pedalDown 64 ex1.ccs 1 1 := by
+  decide +kernel
+/-- hypothesis of `sustain_other_instruments_untouched` for the note of instrument 1 -/
+example : ∀ c ∈ ex1.ccs, c.number = 64 → c.instrument = 1 → c.value < 64 := by decide
+
+/-- ties: pedal pressed and released at the very time a note ends (release wins: not held), pedal
+pressed exactly at a note end (held), a same-pitch note starting exactly at a held note's end
+(held for zero time), a pedal that is never released (held to the last note/pedal event of the
+piece, here the pedal event of instrument 7 at time 4) -/
+def ex2 : NoteSeq :=
+  { notes := [exNote 60 0 1, exNote 60 1 2, exNote 64 0 2, exNote 65 1 3],
+    ccs := [exCC 1 64, exCC 1 63, exCC 2 127, exCC 2 100, exCC 4 127 7],
+    totalTime := 3 }
+example : ex2.isQuantized = false ∧ WellFormed ex2 ∧ NoSamePitchOverlap ex2 := by decide
+example : ex2.notes.map (heldEnd 64 ex2) = [1, 4, 4, 4] ∧ lastEventTime 64 ex2 = 4 := by
+  decide +kernel
+
+/-- hypotheses of `sustain_no_pedal_identity`: only releases and other controllers -/
+def ex3 : NoteSeq :=
+  { notes := [exNote 60 0 1, exNote 60 1 2, exNote 36 0 1 0 true],
+    ccs := [exCC (1/2) 63, exCC 1 0, exCC 0 127 0 66], totalTime := 2 }
+example : ex3.isQuantized = false ∧ WellFormed ex3 ∧ NoSamePitchOverlap ex3 ∧
+    (∀ c ∈ ex3.ccs, c.number = 64 → c.value < 64) ∧ ex3.notes ≠ [] := by decide
+
+/-- hypothesis of `sustain_rejects_quantized` -/
+example : ({ ex1 with spq := 4 } : NoteSeq).isQuantized = true := by decide
+
+/-- the preconditions are not vacuous restrictions either: overlapping same-pitch notes and notes
+that end before they start are excluded -/
+example : ¬ NoSamePitchOverlap { notes := [exNote 60 0 2, exNote 60 1 3] } ∧
+    ¬ NoSamePitchOverlap { notes := [exNote 60 0 2, exNote 60 0 3] } ∧
+    ¬ WellFormed { notes := [exNote 60 2 1] } := by decide
 
 end NSV.C14
